@@ -238,7 +238,7 @@ func randPieceSoup(r *rand.Rand) string {
 	return b.String()
 }
 
-func mutate(r *rand.Rand, s string) string {
+func sanitizeMutate(r *rand.Rand, s string) string {
 	rs := []rune(s)
 	for k, n := 0, 1+r.Intn(3); k < n; k++ {
 		ins := []rune(pick(r, sanPieces))
@@ -285,7 +285,7 @@ func genSanitizeText(r *rand.Rand, n int, emit func(args ...string)) {
 		case k < 12:
 			text = randSanQuery(r, false)
 		case k < 15:
-			text = mutate(r, randSanQuery(r, r.Intn(2) == 0))
+			text = sanitizeMutate(r, randSanQuery(r, r.Intn(2) == 0))
 		case k < 18:
 			text = randPieceSoup(r)
 		default:
